@@ -2,7 +2,7 @@
     writes "{#name1=text1,#name2=text2,...}" (names in dict order, `,` between the definitions, none after the
     last); the splitting of fragment_iter (the strip component's [fragment_split]) gives back exactly the pairs
     (name_i, text_i) in that order; and every text_i is read by the model of the coarse branch of fragment_iter as
-    the chain it was written from ([CoarseChain.coarse_chain_roundtrip]): descriptors of all four kinds, orders 0..3
+    the chain it was written from ([CoarseChain.coarse_chain_roundtrip]): descriptors of all four kinds, orders 0..4
     (through format_strip_roundtrip's machinery), bonds of order 0..4, any length, any number of fragments. *)
 From Coq Require Import String.
 From Coq Require Import List Ascii ZArith Bool Lia.
@@ -61,7 +61,7 @@ Proof.
   unfold fbt, fb_expected. cbn [map concat]. apply nocomma_app; [|exact (IH HD)].
   unfold d_ok in Hd. cbn [fst snd] in Hd. apply andb_prop in Hd as [Hd Ho]. apply andb_prop in Hd as [Hk Hl]. apply Nat.leb_le in Ho.
   unfold fb_item, wrap, d_kl. cbn [fst snd]. apply nocomma_app.
-  - unfold symtext, sym_of. assert (C : (o = 0 \/ o = 1 \/ o = 2 \/ o = 3)%nat) by lia. destruct C as [->|[->|[->| ->]]]; cbn; unfold nocomma; cbn; intuition discriminate.
+  - unfold symtext, sym_of. assert (C : (o = 0 \/ o = 1 \/ o = 2 \/ o = 3 \/ o = 4)%nat) by lia. destruct C as [->|[->|[->|[->| ->]]]]; cbn; unfold nocomma; cbn; intuition discriminate.
   - apply nocomma_app; [unfold nocomma; cbn; intuition discriminate|]. apply nocomma_app; [|unfold nocomma; cbn; intuition discriminate].
     intros [E|Hin]; [|exact (alnum_nocomma lab Hl Hin)]. subst k. discriminate.
 Qed.
@@ -185,7 +185,7 @@ Proof.
       repeat split; try assumption. eapply Forall_impl; [|exact Hl]. intros y (_ & [_ H2] & H3). auto.
 Qed.
 
-(** non-vacuity: two fragments, descriptors of the four kinds and of orders 0..3 *)
+(** non-vacuity: two fragments, descriptors of the four kinds and of orders 0..4 *)
 Definition ex_fs : list cfrag :=
   [(S "X", 3, ex_x0, ex_l); (S "PEO", 0, (S "PEO", [("<"%char, [], 1%nat)]), [(1, 1, (S "PEO", [(">"%char, [], 1%nat)]))])].
 Example coarse_fragments_example :
